@@ -576,7 +576,7 @@ def withCode : WithClause → List Instr
 theorem withClause_some (wc : WithClause) : Gen.withClause (some wc) = withCode wc := by
   cases wc <;> rfl
 
-theorem evalWith_error {wc : WithClause} (hw : WithOK wc) (f : Nat) (cnt : Val) (σ : S) (o : Outcome)
+theorem evalWith_error {wc : WithClause} (f : Nat) (cnt : Val) (σ : S) (o : Outcome)
     (h : evalWith f wc cnt σ = .error o) : o ≠ .normal ∧ o ≠ .brk ∧ o ≠ .ret := by
   cases f with
   | zero => simp [evalWith] at h; subst h; simp
@@ -587,11 +587,11 @@ theorem evalWith_error {wc : WithClause} (hw : WithOK wc) (f : Nat) (cnt : Val) 
       split at h
       · rename_i o' he
         simp at h; subst h
-        exact evalRv_error hw.1 f _ _ he
+        exact evalRvC_error he
       · split at h
         · rename_i o' he
           simp at h; subst h
-          exact evalRv_error hw.2 f _ _ he
+          exact evalRvC_error he
         · simp at h
     | cycle v start =>
       cases start with
@@ -601,22 +601,24 @@ theorem evalWith_error {wc : WithClause} (hw : WithOK wc) (f : Nat) (cnt : Val) 
         split at h
         · rename_i o' he
           simp at h; subst h
-          exact evalRv_error (show RvOK r from hw) f _ _ he
+          exact evalRvC_error he
         · simp at h
 
 /-- **the `with` clause**: operands into `first`/`last`, the index variable set to its first value,
 the increment computed from the count in the hidden counter — as `Sem.evalWith` says -/
-theorem exec_with (wc : WithClause) (hw : WithOK wc) {vars : List (LoopVar × Val)} {ht : Nat} (cnt : Val)
-    (q : Rat) (fl : Bool) (h : SimU K ⟨.loop vars ht :: fr, ev⟩ un σ s) (hpc : s.pc = (pc : Int))
+theorem exec_with {f : Nat} (ihRvs : RvToGoals V img K f) (wc : WithClause) (hw : WithOK V wc)
+    {vars : List (LoopVar × Val)} {ht : Nat} (cnt : Val)
+    (q : Rat) (fl : Bool) (h : Sim K ⟨.loop vars ht :: fr, ev⟩ σ s) (hpc : s.pc = (pc : Int))
     (hc : CodeAt img pc (withCode wc)) (hcnt : getVar vars .counter = cnt)
     (hnum : cnt.asNum = some (q, fl))
-    {f : Nat} {i : Val} {σ' : S} (hev : evalWith f wc cnt σ = .ok (some i, σ')) :
-    Exec img s (fun t => ∃ vars', At K (pc + (withCode wc).length) ⟨.loop vars' ht :: fr, ev⟩ un σ' t ∧
+    {i : Val} {σ' : S} (hev : evalWith f wc cnt σ = .ok (some i, σ')) :
+    Exec img s (fun t => ∃ vars', At K (pc + (withCode wc).length) ⟨.loop vars' ht :: fr, ev⟩ [] σ' t ∧
       getVar vars' .counter = cnt ∧ getVar vars' .incr = i) := by
   have hcn : cnt = .none → False := by rintro rfl; simp [Val.asNum] at hnum
   cases f with
   | zero => simp [evalWith] at hev
   | succ f =>
+  have ihRv := ihRvs f (Nat.le_succ f)
   cases wc with
   | fromTo v a b =>
     simp only [evalWith] at hev
@@ -629,10 +631,8 @@ theorem exec_with (wc : WithClause) (hw : WithOK wc) {vars : List (LoopVar × Va
         simp only [Except.ok.injEq, Prod.mk.injEq] at hev
         obtain ⟨hi, rfl⟩ := hev
         simp only [withCode, indexVarRange, Bool.false_eq_true, if_false] at hc ⊢
-        obtain ⟨rfl, hex1⟩ := exec_toLoopVar a hw.1 .first vars ht h hpc hc.left.left.left hea
-        refine hex1.trans fun t1 ht1 => ?_
-        obtain ⟨rfl, hex2⟩ := exec_toLoopVar b hw.2 .last _ ht ht1.2 ht1.1 hc.left.left.right heb
-        refine hex2.trans fun t2 ht2 => ?_
+        refine (rv_toLoopVar ihRv a hw.1 .first vars ht h hpc hc.left.left.left hea).trans fun t1 ht1 => ?_
+        refine (rv_toLoopVar ihRv b hw.2 .last _ ht ht1.2 ht1.1 hc.left.left.right heb).trans fun t2 ht2 => ?_
         have hfirst : getVar (putVar (putVar vars .first x) .last y) .first = x := by
           rw [getVar_putVar_other _ _ _ _ (by decide), getVar_putVar]
         have hlast : getVar (putVar (putVar vars .first x) .last y) .last = y := getVar_putVar _ _ _
@@ -652,21 +652,21 @@ theorem exec_with (wc : WithClause) (hw : WithOK wc) {vars : List (LoopVar × Va
     simp only [evalWith] at hev
     rw [show withCode (.cycle v start) = cycleVarRange v start from rfl, cycleVarRange_eq] at hc ⊢
     -- from the point where `first` holds the start value
-    have cont : ∀ (x : Val) (t1 : State) (L : Nat),
-        At K (pc + L) ⟨.loop (putVar vars .first x) ht :: fr, ev⟩ un σ t1 →
+    have cont : ∀ (σ0 : S) (x : Val) (t1 : State) (L : Nat),
+        At K (pc + L) ⟨.loop (putVar vars .first x) ht :: fr, ev⟩ [] σ0 t1 →
         CodeAt img (pc + L) ([Instr.move (.loopVar .first) (.var v)] ++ cycleTail) →
-        (cycleIncr σ.vm.mode cnt, σ.assign v x) = (some i, σ') →
-        Exec img t1 (fun t => ∃ vars', At K (pc + (L + 1 + 18)) ⟨.loop vars' ht :: fr, ev⟩ un σ' t ∧
+        (cycleIncr σ0.vm.mode cnt, σ0.assign v x) = (some i, σ') →
+        Exec img t1 (fun t => ∃ vars', At K (pc + (L + 1 + 18)) ⟨.loop vars' ht :: fr, ev⟩ [] σ' t ∧
           getVar vars' .counter = cnt ∧ getVar vars' .incr = i) := by
-      intro x t1 L ht1 hcl hres
+      intro σ0 x t1 L ht1 hcl hres
       simp only [Prod.mk.injEq] at hres
       obtain ⟨hi, rfl⟩ := hres
       have hcounter : getVar (putVar vars .first x) .counter = cnt := by
         rw [getVar_putVar_other _ _ _ _ (by decide), hcnt]
       refine (exec_moveLVVar .first v ht1.2 ht1.1 hcl.head).trans fun t2 ht2 => ?_
       rw [getVar_putVar] at ht2
-      have hi' : cycleIncr (σ.assign v x).vm.mode cnt = some i := by
-        have : (σ.assign v x).vm.mode = σ.vm.mode := by
+      have hi' : cycleIncr (σ0.assign v x).vm.mode cnt = some i := by
+        have : (σ0.assign v x).vm.mode = σ0.vm.mode := by
           simp only [S.assign]
           repeat' split
           all_goals rfl
@@ -683,10 +683,10 @@ theorem exec_with (wc : WithClause) (hw : WithOK wc) {vars : List (LoopVar × Va
           ([Instr.move (.loopVar .first) (.var v)] ++ cycleTail)) := by
         simpa [startRv, genRv] using hc
       refine (exec_moveqLV (.int 0) .first h hpc hc0.head).trans fun t1 ht1 => ?_
-      refine (cont (.int 0) t1 1 ht1 hc0.right hev).mono fun t ht => ?_
+      refine (cont σ (.int 0) t1 1 ht1 hc0.right hev).mono fun t ht => ?_
       simpa [startRv, genRv, hlen] using ht
     | some r =>
-      have hr : RvOK r := hw
+      have hr : RvC V r := hw
       simp only [] at hev
       split at hev
       · simp at hev
@@ -695,9 +695,8 @@ theorem exec_with (wc : WithClause) (hw : WithOK wc) {vars : List (LoopVar × Va
         have hcr : CodeAt img pc (genRv r (.to (.loopVar .first)) ++
             ([Instr.move (.loopVar .first) (.var v)] ++ cycleTail)) := by
           simpa [startRv] using hc
-        obtain ⟨rfl, hex1⟩ := exec_toLoopVar r hr .first vars ht h hpc hcr.left her
-        refine hex1.trans fun t1 ht1 => ?_
-        refine (cont x t1 _ ht1 hcr.right hev).mono fun t ht => ?_
+        refine (rv_toLoopVar ihRv r hr .first vars ht h hpc hcr.left her).trans fun t1 ht1 => ?_
+        refine (cont σ1 x t1 _ ht1 hcr.right hev).mono fun t ht => ?_
         simpa [startRv, hlen, Nat.add_assoc] using ht
 
 /-! ## names on the evaluation stack (loops over lights) -/
